@@ -232,7 +232,9 @@ def tables(draw):
     k = draw(st.integers(1, 6))
     op_idx = draw(st.permutations(range(6)))[:k]
     nlev = max(1, k - draw(st.integers(0, 3)))
-    prios = draw(st.lists(st.integers(0, 25), min_size=nlev, max_size=nlev, unique=True))
+    # arbitrary integers: small ones, 0, and values outside CPython's small-integer cache
+    prios = draw(st.lists(st.one_of(st.integers(0, 25), st.sampled_from([255, 256, 257, 500, 1000, 70000])),
+                          min_size=nlev, max_size=nlev, unique=True))
     assocs = [draw(st.sampled_from(["left", "right"])) for _ in range(nlev)]
     level_of = [i if i < nlev else draw(st.integers(0, nlev - 1)) for i in range(k)]
     style = draw(st.sampled_from(["prod", "prod", "prod", "rule-assoc", "rule-prio"]))
@@ -299,7 +301,7 @@ def enum_tables(tier):
     """every table over two operators with priorities from {0,1,10} and every
     associativity combination, both alternative orders"""
     def it():
-        for p0, p1 in itertools.product([0, 1, 10], repeat=2):
+        for p0, p1 in itertools.product([0, 1, 10, 1000], repeat=2):
             for a0, a1 in itertools.product(["left", "right"], repeat=2):
                 if p0 == p1 and a0 != a1:
                     continue
